@@ -653,6 +653,38 @@ func (e *enc) evalCall(n *SCall, env *Env) SVal {
 		return SVal{t: fmt.Sprintf("(sarr %s)", arg(0).t), sort: "Ref"}
 	case "off":
 		return SVal{t: fmt.Sprintf("(soff %s)", arg(0).t), sort: "Int"}
+	case "addrof":
+		// addrof(x): the address of the (address-taken) local variable or parameter copy x of this function
+		id, ok := n.args[0].(*SIdent)
+		if !ok || env.fn == nil || env.fn != e.fn {
+			env.fail("addrof(localName) expected")
+		}
+		want, k := id.name, 1
+		if i := strings.Index(want, "#"); i > 0 {
+			fmt.Sscanf(want[i+1:], "%d", &k)
+			want = want[:i]
+		}
+		cnt := 0
+		for _, b := range e.fn.Blocks {
+			for _, ins := range b.Instrs {
+				if a, ok := ins.(*ssa.Alloc); ok && a.Comment == want {
+					cnt++
+					if cnt != k {
+						continue
+					}
+					if e.scalar[a] {
+						env.fail("addrof(%s): the variable's address is never taken", id.name)
+					}
+					ref, ok := e.allocRef[a]
+					if !ok {
+						ref = e.newAllocRefFor(a)
+						e.allocRef[a] = ref
+					}
+					return SVal{t: ref, sort: "Ref", typ: a.Type()}
+				}
+			}
+		}
+		env.fail("addrof(%s): no such local", id.name)
 	case "isvar":
 		// isvar(p): p points to a whole variable (not to a field of a struct nor to an array element)
 		return SVal{t: fmt.Sprintf("((_ is alloc) %s)", arg(0).t), sort: "Bool"}
@@ -727,8 +759,8 @@ func (e *enc) evalCall(n *SCall, env *Env) SVal {
 			r = fmt.Sprintf("(strcat %s %s)", r, arg(i).t)
 		}
 		return SVal{t: r, sort: "Str", typ: types.Typ[types.String]}
-	case "as":
-		// as(x, T): the value of (package-level) type T held by the interface value x
+	case "as", "asptr":
+		// as(x, T): the value of (package-level) type T held by the interface value x; asptr(x, T): of type *T
 		v := arg(0)
 		id, ok := n.args[1].(*SIdent)
 		if !ok || v.sort != "Iface" {
@@ -742,6 +774,9 @@ func (e *enc) evalCall(n *SCall, env *Env) SVal {
 		}
 		if tt == nil {
 			env.fail("unknown type %s", id.name)
+		}
+		if n.fun == "asptr" {
+			tt = types.NewPointer(tt)
 		}
 		tid := e.typeID(tt)
 		s := sortOf(tt)
